@@ -883,8 +883,8 @@ fn main() {
     }
 
     // ---- generated cases ----
-    let n_direct = if args.thorough() { 4000 } else { 430 };
-    let n_pipe = if args.thorough() { 1500 } else { 170 };
+    let n_direct = if args.thorough() { 6000 } else { 1000 };
+    let n_pipe = if args.thorough() { 2500 } else { 400 };
     for k in 0..n_direct {
         let mut rng = rng.fork(); // everything of one case derives from this: `--only` replays the same case
         let trios = match k % 10 {
